@@ -387,10 +387,17 @@ def _run_pretty_visited(pretty_fn, value, ctx, trailing_comment):
                         type(value).__name__, fnname
                     )
                 )
-                doc = pretty_fn(value, ctx)
+                try:
+                    doc = pretty_fn(value, ctx)
+                except Exception as retry_exc:
+                    _warn_about_bad_printer(pretty_fn, value, exc=retry_exc)
+                    doc = repr(value)
             else:
                 _warn_about_bad_printer(pretty_fn, value, exc=e)
                 doc = repr(value)
+        except Exception as e:
+            _warn_about_bad_printer(pretty_fn, value, exc=e)
+            doc = repr(value)
     else:
         try:
             doc = pretty_fn(value, ctx)
